@@ -172,6 +172,10 @@ func (b *Bridge) after(in *hub.Instance, g *bridgeGhost, op engine.Op, pre *view
 		}
 	}
 
+	for _, m := range g.ImportedLow {
+		// on Minter the sequence is the multisig nonce: a number at or below the counter has been spent
+		b.v(st, "C10", "outgoing_sequence_not_above_counter", "InitGenesis", "%s", m)
+	}
 	// ---- new batches: C10 well-formedness at creation
 	var newKeys []string
 	for k := range postB {
@@ -197,6 +201,10 @@ func (b *Bridge) after(in *hub.Instance, g *bridgeGhost, op engine.Op, pre *view
 		g.BatchSeen[k] = true
 		g.BatchSeq[k] = bt.Sequence
 		st.Count("batches_created", 1)
+		if bt.Sequence <= g.LastSeq[ch] {
+			// on Minter the sequence is the multisig nonce: a number at or below the counter has been spent
+			b.v(st, "C10", "outgoing_sequence_not_above_counter", "SetOutgoingTx", "batch %s carries sequence %d, the chain's outgoing sequence counter was already at %d", k, bt.Sequence, g.LastSeq[ch])
+		}
 		if len(bt.Transactions) == 0 {
 			b.v(st, "C10", "empty_batch", op.Kind, "batch %s created with no transfers", k)
 		}
@@ -363,6 +371,8 @@ func (b *Bridge) after(in *hub.Instance, g *bridgeGhost, op engine.Op, pre *view
 		}
 		if _, still := postB[ek]; still {
 			b.v(st, "C13", "executed_batch_not_removed", "batchTxExecuted", "batch %s still pending after its execution event was applied", ek)
+			b.v(st, "C04", "executed_transfers_still_in_a_pending_batch", "batchTxExecuted", "the transfers of batch %s were paid out by the external chain and the execution event has been applied, yet the hub still holds them in that pending batch (they can be released, refunded or paid out again)", ek)
+			b.v(st, "C01", "executed_batch_still_in_flight", "batchTxExecuted", "batch %s was paid out of the custody and its execution event has been applied, yet its transfers are still in flight on the hub (a later cancellation, expiry or re-batching pays them a second time)", ek)
 		}
 		for k, pb := range preB {
 			if k == ek || execd[k] {
@@ -501,8 +511,13 @@ func (b *Bridge) after(in *hub.Instance, g *bridgeGhost, op engine.Op, pre *view
 				if t := b.tokenByExt(ch, e.Token.ExternalTokenId); t != nil && (g.Delisted[e.RefundChainId+"|"+t.Denom] || g.Delisted[ch+"|"+t.Denom]) {
 					continue // ... or its own token is off the list: there is no denom to refund in
 				}
-				if e.RefundChainId != "" && int64(e.CreatedAt)+b.timeoutDur() < now {
-					b.v(st, "C12", "overdue_transfer_not_refunded", "refundExpiredTxs", "%s/%d created at %d is still in the pool after the EndBlocker at %d (timeout %d s)", ch, e.Id, e.CreatedAt, now, b.timeoutDur())
+				// the age of a transfer counts from its creation (the reference's own record of it), whatever the entry says now
+				created := int64(e.CreatedAt)
+				if x := g.Xfers[fmt.Sprintf("%s/%d", ch, e.Id)]; x != nil && x.Created < created {
+					created = x.Created
+				}
+				if e.RefundChainId != "" && created+b.timeoutDur() < now {
+					b.v(st, "C12", "overdue_transfer_not_refunded", "refundExpiredTxs", "%s/%d created at %d (the pool entry says %d) is still in the pool after the EndBlocker at %d (timeout %d s)", ch, e.Id, created, e.CreatedAt, now, b.timeoutDur())
 				}
 			}
 		}
